@@ -11,7 +11,7 @@ Separate Extraction
   FmtModel.int2str FmtModel.result_error
   ParserModel.scpi_input ParserModel.scpi_parse ParserModel.ctx ParserModel.op ParserModel.event ParserModel.native_le
   RegModel.push RegModel.pop RegModel.clear RegModel.wr RegModel.cls
-  CmdModel.cmd_do CmdModel.cmd_resp CmdModel.reg_bits
+  CmdModel.cmd_do CmdModel.cmd_resp CmdModel.cmd_text CmdModel.reg_bits
   QStatic.error_pop_release QStatic.error_clear
   ErrQueue.push ErrQueue.pop ErrQueue.clear
   GFmt.fmt_double GFmt.fmt_float Dtostre.layout
